@@ -20,7 +20,11 @@ def _configs(tier):
           ([dict(name='ftz-all-on-f32', real=4, have=REAL_SW + CPLX, harness=['h_real_ftz.c'], nworkers=2)] if tier != 'quick' else [])
     # the library built with -fopenmp (as setup.py / python/CMakeLists.txt do under LIBA_OPENMP): pragmas guarded by _OPENMP are live there (seeded change C09-K)
     omp = [dict(name='all-on-f64-openmp', real=8, have=REAL_SW + CPLX, cflags=['-fopenmp'], nworkers=2, of=4)]
-    return _configs0(tier) + _arms(tier) + ftz + omp
+    # float / double arithmetic in x87 registers (32-bit x86 without SSE2: excess precision and double rounding; seeded change C11-L) and a long double no wider
+    # than double: the library alone is built that way
+    cg = [dict(name='all-off-f64-x87', real=8, have=CPLX, libflags=['-mfpmath=387'], nworkers=2), dict(name='all-off-f32-x87', real=4, have=CPLX, libflags=['-mfpmath=387'], nworkers=2),
+          dict(name='all-off-f64-ld64', real=8, have=CPLX, libflags=['-mlong-double-64'], nworkers=2)]
+    return _configs0(tier) + _arms(tier) + ftz + omp + cg
 
 
 def _configs0(tier):
@@ -47,7 +51,7 @@ def _configs0(tier):
 SPEC = dict(
     harness=['h_real.c', 'h_real_ext.c'],
     configs=_configs,
-    parallel_configs=10,
+    parallel_configs=13,
     lib_sources=['math.c', 'a.c'],
     workers={'quick': 9, 'thorough': 18},
     level='exploration',
